@@ -7,6 +7,5 @@ INVARIANT TypeOK
 INVARIANT EdgesSound
 INVARIANT Final
 INVARIANT DepsFirst
-INVARIANT IsoReadsOnly
 POSTCONDITION Accepted
 CHECK_DEADLOCK FALSE
